@@ -146,6 +146,13 @@ def norm_model(x, *a, **k):
     return tot.sqrt()
 
 
+def array_model(obj, dtype=None, *a, **k):
+    """np.array that keeps symbolic entries (object dtype) even when a float dtype is requested."""
+    if _has_sym(obj):
+        return _np.array(obj, dtype=object)
+    return _np.array(obj, dtype=dtype, *a, **k) if dtype is not None else _np.array(obj, *a, **k)
+
+
 def zeros_model(shape, dtype=None, *a, **k):
     """np.zeros that can hold symbolic entries (object array of exact 0)."""
     out = _np.empty(shape, dtype=object)
